@@ -16,4 +16,7 @@ for b in F.bodies:
     if loc:
         out[b["path"] + "|" + (b.get("impl_self") or "") + "|" + (b.get("impl_trait") or "")] = loc
 json.dump(out, open(os.path.join(VERIF, "refs", "locals.json"), "w"), indent=0, sort_keys=True)
+# every function of the reference tree (a function that is *not* in this list is a helper introduced later: bsa.hir inlines those back)
+fns = sorted({b["path"] for b in F.bodies if b.get("kind", "fn") not in ("const", "static")})
+json.dump(fns, open(os.path.join(VERIF, "refs", "functions.json"), "w"), indent=0)
 print("functions:", len(out), "locals:", sum(len(v) for v in out.values()))
